@@ -114,7 +114,18 @@ Definition new_coverage_s (media : list mpkt) (n : Z) : option coverage_s :=
   if (k <=? 0) || (k >? MaxMediaPackets) then None
   else Some (update_coverage_s {| cs_masks := repeat ba_zero 110; cs_nf := 0; cs_nm := 0; cs_media := [] |} media n).
 
-Definition encode_packet_s (zero : bool) (env : pool_env) (pl : pool) (c : coverage_s)
+(* [fixpad] = the commit "fix: flexfec-03 encoder protects packets whose padding is carried in the payload".
+   Without it rtp.Packet.MarshalTo fails on a packet with Header.Padding and paddingSize() = 0: the XOR loop
+   has processed the packets before it, encodeFlexFecPacket returns (rtp.Packet{}, false), the deferred Put
+   hands the pooled buffer back. *)
+Definition unmarshallable (p : mpkt) : bool := m_p p && (m_pad p =? 0)%nat.
+Fixpoint take_marshallable (ps : list mpkt) : list mpkt :=
+  match ps with
+  | [] => []
+  | p :: tl => if unmarshallable p then [] else p :: take_marshallable tl
+  end.
+
+Definition encode_packet_s (zero fixpad : bool) (env : pool_env) (pl : pool) (c : coverage_s)
            (pt ssrc base_sn f sn : Z) : res (option repair) * pool :=
   if MaxFecPackets <=? f then (Panic, pl) else
   let b := nth (Z.to_nat f) (cs_masks c) ba_zero in
@@ -123,21 +134,25 @@ Definition encode_packet_s (zero : bool) (env : pool_env) (pl : pool) (c : cover
   | [] => (Ok None, pl)
   | _ =>
     let ps := map (fun i => nth (Z.to_nat i) (cs_media c) mpkt0) idx in
+    if negb fixpad && existsb unmarshallable ps then
+      (Ok None, (S (fst pl), snd (fec_payload_s zero (env (fst pl) (snd pl)) (take_marshallable ps) base_sn
+                                    (extract_mask1 b) (extract_mask2 b) (extract_mask3_03 b))))
+    else
     let '(payload, back) := fec_payload_s zero (env (fst pl) (snd pl)) ps base_sn
                               (extract_mask1 b) (extract_mask2 b) (extract_mask3_03 b) in
     (Ok (Some {| r_pt := pt; r_sn := sn; r_ssrc := ssrc; r_payload := payload |}), (S (fst pl), back))
   end.
 
-Fixpoint encode_loop_s (zero : bool) (env : pool_env) (pl : pool) (c : coverage_s) (pt ssrc base_sn : Z)
+Fixpoint encode_loop_s (zero fixpad : bool) (env : pool_env) (pl : pool) (c : coverage_s) (pt ssrc base_sn : Z)
          (fs : list Z) (sn : Z) : res (Z * list repair) * pool :=
   match fs with
   | [] => (Ok (sn, []), pl)
   | f :: fs' =>
-    match encode_packet_s zero env pl c pt ssrc base_sn f sn with
+    match encode_packet_s zero fixpad env pl c pt ssrc base_sn f sn with
     | (Panic, pl') => (Panic, pl')
-    | (Ok None, pl') => encode_loop_s zero env pl' c pt ssrc base_sn fs' sn
+    | (Ok None, pl') => encode_loop_s zero fixpad env pl' c pt ssrc base_sn fs' sn
     | (Ok (Some r), pl') =>
-      match encode_loop_s zero env pl' c pt ssrc base_sn fs' (add16 sn 1) with
+      match encode_loop_s zero fixpad env pl' c pt ssrc base_sn fs' (add16 sn 1) with
       | (Panic, pl'') => (Panic, pl'')
       | (Ok (sn', rs), pl'') => (Ok (sn', r :: rs), pl'')
       end
@@ -149,7 +164,7 @@ Definition new_encoder_s (pt ssrc : Z) : enc_s := {| es_sn := 1000; es_pt := pt;
 
 (* EncodeFec (both fix: commits of the deepening round applied), sequence numbers read from the
    marshalled form as in Model/Flexfec.v *)
-Definition encode_fec_s (zero : bool) (env : pool_env) (pl : pool) (e : enc_s) (media : list mpkt) (n0 : Z)
+Definition encode_fec_s (zero fixpad : bool) (env : pool_env) (pl : pool) (e : enc_s) (media : list mpkt) (n0 : Z)
   : enc_s * res (option (list repair)) * pool :=
   let n := Z.min n0 MaxFecPackets in
   let k := zlen media in
@@ -162,7 +177,7 @@ Definition encode_fec_s (zero : bool) (env : pool_env) (pl : pool) (e : enc_s) (
   match cov with
   | None => ({| es_sn := es_sn e; es_pt := es_pt e; es_ssrc := es_ssrc e; es_cov := None |}, Ok None, pl)
   | Some c =>
-    match encode_loop_s zero env pl c (es_pt e) (es_ssrc e) (sn_of (hd [] (map wire media)))
+    match encode_loop_s zero fixpad env pl c (es_pt e) (es_ssrc e) (sn_of (hd [] (map wire media)))
                         (zrange 0 (Z.to_nat n)) (es_sn e) with
     | (Panic, pl') => ({| es_sn := es_sn e; es_pt := es_pt e; es_ssrc := es_ssrc e; es_cov := Some c |}, Panic, pl')
     | (Ok (sn', rs), pl') =>
@@ -170,13 +185,13 @@ Definition encode_fec_s (zero : bool) (env : pool_env) (pl : pool) (e : enc_s) (
     end
   end.
 
-Fixpoint run_batches_s (zero : bool) (env : pool_env) (pl : pool) (e : enc_s) (bs : list (list mpkt * Z))
+Fixpoint run_batches_s (zero fixpad : bool) (env : pool_env) (pl : pool) (e : enc_s) (bs : list (list mpkt * Z))
   : list (res (option (list repair))) :=
   match bs with
   | [] => []
   | (media, n) :: tl =>
-    let '(e', r, pl') := encode_fec_s zero env pl e media n in
-    r :: match r with Panic => [] | _ => run_batches_s zero env pl' e' tl end
+    let '(e', r, pl') := encode_fec_s zero fixpad env pl e media n in
+    r :: match r with Panic => [] | _ => run_batches_s zero fixpad env pl' e' tl end
   end.
 
 (* ---- 3. the interceptor and the caller's buffers ---- *)
@@ -222,3 +237,29 @@ Fixpoint ia_run (copy : bool) (st : store) (s : icpt_a) (evs : list (nat * pkt))
 
 Definition abs_icpt (s : icpt_a) (st : store) : icpt :=
   {| i_nm := ia_nm s; i_nf := ia_nf s; i_ssrc := ia_ssrc s; i_enc := ia_enc s; i_buf := map (deref st) (ia_buf s) |}.
+
+(* ---- 4. the interceptor's writer over structured packets, sharing the pool ---- *)
+(* the batch accumulator holds rtp.Packet values (cloned header, copied payload) = structured packets; what
+   reaches the next writer is the caller's header and payload, observed as their wire form *)
+Record icpt_s := { is_nm : Z; is_nf : Z; is_ssrc : list Z; is_enc : enc_s; is_buf : list mpkt }.
+
+Definition is_write (env : pool_env) (pl : pool) (s : icpt_s) (p : mpkt) : icpt_s * res (list out) * pool :=
+  if negb (list_Z_eqb (ssrc_bytes (wire p)) (is_ssrc s)) then (s, Ok [OMedia (wire p)], pl) else
+  let buf := is_buf s ++ [p] in
+  if zlen buf =? is_nm s then
+    let '(e', r, pl') := encode_fec_s true true env pl (is_enc s) buf (is_nf s) in
+    let s' := {| is_nm := is_nm s; is_nf := is_nf s; is_ssrc := is_ssrc s; is_enc := e'; is_buf := [] |} in
+    match r with
+    | Panic => (s', Panic, pl')
+    | Ok None => (s', Ok [OMedia (wire p)], pl')
+    | Ok (Some rs) => (s', Ok (OMedia (wire p) :: map ORepair rs), pl')
+    end
+  else ({| is_nm := is_nm s; is_nf := is_nf s; is_ssrc := is_ssrc s; is_enc := is_enc s; is_buf := buf |},
+        Ok [OMedia (wire p)], pl).
+
+Fixpoint is_run (env : pool_env) (pl : pool) (s : icpt_s) (ws : list mpkt) : list (res (list out)) :=
+  match ws with
+  | [] => []
+  | p :: tl => let '(s', r, pl') := is_write env pl s p in
+               r :: match r with Panic => [] | _ => is_run env pl' s' tl end
+  end.
